@@ -353,7 +353,10 @@ DefineRunnerRegistrator(SnmpRr);
 void
 snmpHandleUdp(int sock, void *)
 {
-    static char buf[SNMP_REQUEST_SIZE];
+    // The BER parsers look at up to 6 octets (type, length and the long-form
+    // length octets) before checking how much of the datagram is left, so
+    // keep some zeroed slack behind the largest datagram we accept.
+    static char buf[SNMP_REQUEST_SIZE + 8];
     Ip::Address from;
     SnmpRequest *snmp_rq;
     int len;
@@ -364,7 +367,7 @@ snmpHandleUdp(int sock, void *)
 
     memset(buf, '\0', sizeof(buf));
 
-    len = comm_udp_recvfrom(sock, buf, sizeof(buf)-1, 0, from);
+    len = comm_udp_recvfrom(sock, buf, SNMP_REQUEST_SIZE - 1, 0, from);
 
     if (len > 0) {
         debugs(49, 3, "snmpHandleUdp: FD " << sock << ": received " << len << " bytes from " << from << ".");
